@@ -255,6 +255,58 @@ theorem seedVAfter_append_setSeed (v0 s : Nat) (h : List Act) :
   | nil => simp [seedVAfter]
   | cons a h ih => rw [List.cons_append, seedVAfter_cons, ih, ← seedVAfter_cons]
 
+/-! ### the attached configuration -/
+
+theorem buildShelf_cfgId (c : Cfg) (o : Obj) : (buildShelf c o).1.cfgId = o.cfgId := by
+  by_cases hz : o.nv.nz = 1 <;> cases hs : c.sigmaPos <;> simp [buildShelf, hz, hs]
+
+theorem getHShelf_cfgId (c : Cfg) (o : Obj) : (getHShelf c o).1.cfgId = o.cfgId := by
+  unfold getHShelf; split
+  · exact buildShelf_cfgId c o
+  · rfl
+
+theorem buildMatrices_cfgId (c : Cfg) (o : Obj) : (buildMatrices c o).1.cfgId = o.cfgId := by
+  unfold buildMatrices; rw [buildShelf_cfgId]
+
+theorem getHInt_cfgId (c : Cfg) (o : Obj) : (getHInt c o).1.cfgId = o.cfgId := by
+  unfold getHInt; split
+  · exact buildMatrices_cfgId c o
+  · rfl
+
+theorem run_cfgId (c : Cfg) (o : Obj) : (run c o).1.cfgId = o.cfgId := by
+  unfold run
+  simp only [rollDice]
+  rw [getHShelf_cfgId, buildShelf_cfgId]
+  simp only []
+  rw [getHInt_cfgId, getHInt_cfgId]
+
+theorem setSeed_cfgId (c : Cfg) (s : Nat) (o : Obj) : (setSeed c s o).1.cfgId = o.cfgId := by
+  unfold setSeed; simp only []; rw [getHShelf_cfgId]
+
+theorem mkNew_cfgId (c : Cfg) (s : Nat) (nv : NV) : (mkNew c s nv).1.cfgId = 0 := by
+  unfold mkNew; simp only []; rw [buildShelf_cfgId]
+
+theorem step_cfgId (c : Cfg) (t : Trace) (a : Act) :
+    (step run c t a).obj.cfgId = cfgAfter t.obj.cfgId [a] := by
+  cases a <;> simp [step, cfgAfter, mkNew_cfgId, setSeed_cfgId, buildMatrices_cfgId, run_cfgId,
+    getHShelf_cfgId, getHInt_cfgId]
+
+theorem cfgAfter_cons (v : Nat) (a : Act) (h : List Act) :
+    cfgAfter v (a :: h) = cfgAfter (cfgAfter v [a]) h := by
+  cases a <;> simp [cfgAfter]
+
+theorem foldl_cfgId (c : Cfg) (h : List Act) (t : Trace) :
+    (h.foldl (step run c) t).obj.cfgId = cfgAfter t.obj.cfgId h := by
+  induction h generalizing t with
+  | nil => rfl
+  | cons a h ih => rw [List.foldl_cons, ih, step_cfgId, ← cfgAfter_cons]
+
+theorem cfgAfter_append_setSeed (v0 s : Nat) (h : List Act) :
+    cfgAfter v0 (h ++ [.setSeed s]) = cfgAfter v0 h := by
+  induction h generalizing v0 with
+  | nil => simp [cfgAfter]
+  | cons a h ih => rw [List.cons_append, cfgAfter_cons, ih, ← cfgAfter_cons]
+
 /-- the kinetic deviates of the last run of a history that ends with `run` -/
 theorem last_xi (c : Cfg) (o : Obj) (h : List Act) :
     (execFrom run c o (h ++ [.run])).xis.getLast? =
@@ -264,6 +316,41 @@ theorem last_xi (c : Cfg) (o : Obj) (h : List Act) :
   simp only [List.foldl_cons, List.foldl_nil, step]
   simp only [List.getLast?_append, List.getLast?_singleton, Option.some_or]
   rw [foldl_seedV, foldl_nv]
+
+/-- the configuration read by the last run of a history that ends with `run` -/
+theorem last_cfg (c : Cfg) (o : Obj) (h : List Act) :
+    (execFrom run c o (h ++ [.run])).cfgs.getLast? = some (cfgAfter o.cfgId h) := by
+  unfold execFrom
+  rw [List.foldl_append]
+  simp only [List.foldl_cons, List.foldl_nil, step]
+  simp only [List.getLast?_append, List.getLast?_singleton, Option.some_or]
+  rw [foldl_cfgId]
+
+theorem fresh_run_k (c : Cfg) (s v k : Nat) (nv : NV) :
+    (exec c [.new s nv, .setSeedV v, .editCfg k, .run]).scheds = [canon c s nv] ∧
+    (exec c [.new s nv, .setSeedV v, .editCfg k, .run]).xis = [(v, nv.total)] ∧
+    (exec c [.new s nv, .setSeedV v, .editCfg k, .run]).cfgs = [k] := by
+  simp [exec, execFrom, step, run_sched, mkNew_seed, mkNew_nv]
+
+/-- **run_config_current**: a run reads the configuration attached at that moment —
+for EVERY history (in-place edits of the operating conditions, other time step,
+other opcond object, between any runs), the last run of `h ++ [seed = s, run]` has
+the generator schedule, the vial deviates AND the configuration of a fresh object
+built with the current configuration, seed `s` and the current vial seed. -/
+theorem run_config_current (c : Cfg) (h : List Act) (s : Nat) :
+    let fresh := exec c [.new s (nvAfter ⟨7, 7, 1⟩ h), .setSeedV (seedVAfter 2024 h), .editCfg (cfgAfter 0 h), .run]
+    (exec c (h ++ [.setSeed s, .run])).scheds.getLast? = fresh.scheds.getLast? ∧
+    (exec c (h ++ [.setSeed s, .run])).xis.getLast? = fresh.xis.getLast? ∧
+    (exec c (h ++ [.setSeed s, .run])).cfgs.getLast? = fresh.cfgs.getLast? := by
+  have e : h ++ [Act.setSeed s, Act.run] = (h ++ [Act.setSeed s]) ++ [Act.run] := by simp
+  have hd : (defaultObj c).nv = ⟨7, 7, 1⟩ := mkNew_nv c 2021 ⟨7, 7, 1⟩
+  have hv : (defaultObj c).seedV = 2024 := mkNew_seedV c 2021 ⟨7, 7, 1⟩
+  have hk : (defaultObj c).cfgId = 0 := mkNew_cfgId c 2021 ⟨7, 7, 1⟩
+  obtain ⟨f1, f2, f3⟩ := fresh_run_k c s (seedVAfter 2024 h) (cfgAfter 0 h) (nvAfter ⟨7, 7, 1⟩ h)
+  simp only []
+  rw [f1, f2, f3, exec, e, last_run, last_xi, last_cfg, seedAfter_append_setSeed, nvAfter_append_setSeed,
+    seedVAfter_append_setSeed, cfgAfter_append_setSeed, hd, hv, hk]
+  exact ⟨rfl, rfl, rfl⟩
 
 theorem fresh_run_v (c : Cfg) (s v : Nat) (nv : NV) :
     (exec c [.new s nv, .setSeedV v, .run]).scheds = [canon c s nv] ∧
